@@ -6,6 +6,8 @@ from contextlib import suppress
 from pathlib import Path
 from typing import Any
 
+from upath import UPath
+
 
 if sys.version_info >= (3, 11):  # pragma: no cover
     from hashlib import file_digest
@@ -227,7 +229,7 @@ def hash_value(value: Any) -> int | str:
         return 0xFCA86420
     if isinstance(value, (tuple, list)):
         value = "".join(str(hash_value(i)) for i in value)
-    if isinstance(value, Path):
+    if isinstance(value, (Path, UPath)):
         value = str(value)
     if isinstance(value, str):
         value = value.encode()
